@@ -16,6 +16,7 @@ From PV.Model Require Import Codec Pack Master Parse.
 From PV.Proofs Require Import MasterPack MasterChecker ParseShareWalk ParseTotal.
 Import ListNotations.
 Local Open Scope Z_scope.
+Ltac Zify.zify_post_hook ::= Z.to_euclidean_division_equations.
 
 (* ---- the whole-file reader ----------------------------------------------------------------------------------- *)
 
@@ -40,14 +41,18 @@ Proof.
   { destruct (Z.lt_ge_cases 0 len) as [H|H]; [exact H|]. exfalso. apply Hne.
     replace (Z.to_nat (Z.min len (zlen bytes))) with 0%nat by lia. reflexivity. }
   set (d := Z.min len (Z.max (zlen bytes - ext * BS) 0)).
-  assert (Hd : 0 < d <= zlen bytes - ext * BS) by (unfold d; lia).
-  assert (Hall : ps_inU (ps_file_U bytes) (ps_range (zlen bytes) ext len) = ps_range (zlen bytes) ext len).
-  { apply ps_filter_all. intros b Hb. apply ps_mem_in. unfold ps_range in Hb. fold d in Hb.
+  assert (Hd : 0 < d <= zlen bytes - ext * BS /\ d <= len /\ Z.min len (zlen bytes - ext * BS) <= d) by (unfold d; lia).
+  assert (Hr : ps_range (zlen bytes) ext len =
+               map (fun k => ext + Z.of_nat k) (seq 0 (Z.to_nat (Z.max (ceiling_div d BS) 1)))) by reflexivity.
+  clearbody d. rewrite Hr.
+  set (R := map (fun k => ext + Z.of_nat k) (seq 0 (Z.to_nat (Z.max (ceiling_div d BS) 1)))).
+  assert (Hall : ps_inU (ps_file_U bytes) R = R).
+  { apply ps_filter_all. intros b Hb. apply ps_mem_in. unfold R in Hb.
     apply in_map_iff in Hb. destruct Hb as (k & <- & Hk'). apply in_seq in Hk'.
     unfold ps_file_U. apply in_map_iff. exists (Z.to_nat (ext + Z.of_nat k)). split; [lia|]. apply in_seq.
     split; [lia|]. cbn [Nat.add]. apply Nat.lt_succ_r. apply Nat.div_le_lower_bound; [lia|].
     unfold ceiling_div in Hk'. rewrite ms_BS in *. unfold zlen in *. lia. }
-  rewrite Hall. unfold ps_range. fold d. rewrite map_length, seq_length, firstn_length, skipn_length.
+  rewrite Hall. unfold R. rewrite map_length, seq_length, firstn_length, skipn_length.
   unfold ceiling_div. rewrite ms_BS in *. unfold zlen in *. lia.
 Qed.
 
